@@ -143,6 +143,18 @@ package soymsg
 //@   props C10 C08 C09
 //@   nosafety
 //@   pure
+//@   ghost cur string = ""
+//@   at call (*regexp.Regexp).ReplaceAllString#0 assert[first-strip-the-outer-underscores;C10] arg0 == leadingOrTrailing_ && same(arg1, ident) && arg2 == ""
+//@   at call (*regexp.Regexp).ReplaceAllString#0 after set cur = res
+//@   at call (*regexp.Regexp).ReplaceAllString#1 assert[then-collapse-underscore-runs;C10] arg0 == consecutive_ && same(arg1, cur)
+//@   at call (*regexp.Regexp).ReplaceAllString#1 after set cur = res
+//@   at call (*regexp.Regexp).ReplaceAllString#2 assert[then-the-capitalised-word-boundary;C10] arg0 == wordBoundary1 && same(arg1, cur) && arg2 == "${1}_${2}"
+//@   at call (*regexp.Regexp).ReplaceAllString#2 after set cur = res
+//@   at call (*regexp.Regexp).ReplaceAllString#3 assert[then-the-letter-digit-boundary;C10] arg0 == wordBoundary2 && same(arg1, cur) && arg2 == "${1}_${2}"
+//@   at call (*regexp.Regexp).ReplaceAllString#3 after set cur = res
+//@   at call (*regexp.Regexp).ReplaceAllString#4 assert[then-the-digit-letter-boundary;C10] arg0 == wordBoundary3 && same(arg1, cur) && arg2 == "${1}_${2}"
+//@   at call (*regexp.Regexp).ReplaceAllString#4 after set cur = res
+//@   at call strings.ToUpper#0 assert[finally-upper-cased;C10] same(arg0, cur)
 
 // C11: a translated string is cut at its {NAME} occurrences: the text between
 // two occurrences (and after the last) is a raw-text part, an occurrence
@@ -174,3 +186,17 @@ package soymsg
 //@   pure
 //@   at call soymsg.hash32#0 assert[first-half-over-the-whole-string;C10] sameslice(arg0, str) && arg1 == 0 && arg2 == len(str) && arg3 == 0
 //@   at call soymsg.hash32#1 assert[second-half-over-the-whole-string-with-the-second-seed;C10] sameslice(arg0, str) && arg1 == 0 && arg2 == len(str) && arg3 == 102072
+
+// C10: base names follow the official derivation: strip leading / trailing
+// underscores, collapse runs of underscores, put an underscore at the three
+// word boundaries (letter|Upper-lower, letter|digit, digit|letter), in that
+// order, then upper-case. The five patterns and the five passes are pinned.
+//@ func init
+//@   props C10
+//@   nosafety
+//@   modifies *
+//@   at call regexp.MustCompile#0 assert[leading-or-trailing-underscores;C10] arg0 == "^_+|_+$"
+//@   at call regexp.MustCompile#1 assert[runs-of-underscores;C10] arg0 == "__+"
+//@   at call regexp.MustCompile#2 assert[letter-then-capitalised-word;C10] arg0 == "([a-zA-Z])([A-Z][a-z])"
+//@   at call regexp.MustCompile#3 assert[letter-then-digit;C10] arg0 == "([a-zA-Z])([0-9])"
+//@   at call regexp.MustCompile#4 assert[digit-then-letter;C10] arg0 == "([0-9])([a-zA-Z])"
